@@ -159,6 +159,47 @@ def _b128(n):
     return bytes(ds)
 
 
+def key_der_lines(ctx, rng, quick):
+    """SEC1 / PKCS #8 private keys of named curves: encoder, then the decoder on the encodings, their truncations, byte
+    mutations and structurally consistent DER edits"""
+    import refec
+    import dertree
+    from c17 import refec_curve
+    import os, re
+    gen = open(os.path.join(os.path.dirname(os.path.abspath(__file__)), "..", "lean", "Bec2Verif", "Gen", "Curves.lean")).read()
+    recs = {m.group(1): (m.group(2).replace(" ", ""), int(m.group(3)))
+            for m in re.finditer(r'name := "(\w+)".*?oid := \[([^\]]*)\], baselen := (\d+)', gen)}
+    enc = []
+    for name in (NAMED if not quick else rng.sample(NAMED, 6) + ["NIST256p"]):
+        c = refec_curve(ctx, name)
+        oid, bl = recs[name]
+        ln = (c["p"].bit_length() + 7) // 8
+        for d in [1, c["n"] - 1, rng.randrange(1, c["n"]), rng.randrange(1, 1 << max(8, c["n"].bit_length() - 12))]:
+            q = refec.mul(c, d, (c["gx"], c["gy"]))
+            pub = b"\x04" + q[0].to_bytes(ln, "big") + q[1].to_bytes(ln, "big")
+            for fmt in ("ssleay", "pkcs8"):
+                enc.append(f"key.toder {fmt} {oid} {hx(d.to_bytes(bl, 'big'))} {hx(pub)}")
+    res = ctx.correspond(enc, "key-der-encode")
+    dec = []
+    for line, r in zip(list(dict.fromkeys(enc)), res):
+        if not r.startswith("ok "):
+            continue
+        data = bytes.fromhex(r[3:])
+        dec.append(f"key.fromder {hx(data)}")
+        cuts = range(len(data)) if not quick else rng.sample(range(len(data)), 6)
+        for k in cuts:
+            dec.append(f"key.fromder {hx(data[:k]) or '-'}")
+        dec.append(f"key.fromder {hx(data + b'\x00')}")
+        for _ in range(6 if quick else 60):
+            b = bytearray(data)
+            i = rng.randrange(len(b))
+            b[i] = rng.choice([b[i] ^ (1 << rng.randrange(8)), 0, 0xFF, 0x30, 0x02, 0x04, 0xA0, 0xA1, 0x06])
+            dec.append(f"key.fromder {hx(bytes(b))}")
+        for m in dertree.mutations(data, rng, limit=(8 if quick else 80)):
+            dec.append(f"key.fromder {hx(m[1] if isinstance(m, tuple) else m) or '-'}")
+    ctx.correspond(dec, "key-der-decode")
+
+
 def run(ctx):
     rng = ctx.rng
     quick = ctx.quick
@@ -169,6 +210,7 @@ def run(ctx):
                 "structurally consistent DER edits, point strings of valid / off-curve / out-of-range points; non-trivial = distinct")
     ctx.correspond(der_lines(rng, 20 if quick else 200), "der-primitives")
     ctx.correspond(codec_lines(ctx, rng, 2 if quick else 12), "point-codecs")
+    key_der_lines(ctx, rng, quick)
     props = []
     import refec
     from c17 import refec_curve
